@@ -359,19 +359,27 @@ Definition fl_resent (k4 : kcp) : Z :=
 
 (* ---- phase 5 ---- *)
 (* what flush_seg keeps of a segment *)
-Definition fl_seg_rel (s s' : seg) : Prop :=
+Definition fl_seg_rel (full : Prop) (s s' : seg) : Prop :=
   s_sn s' = s_sn s /\ s_data s' = s_data s /\ s_conv s' = s_conv s /\ s_cmd s' = s_cmd s /\
-  s_acked s' = s_acked s /\ (s_xmit s = 0 -> s_acked s = 0 -> s_xmit s' = 1).
+  s_acked s' = s_acked s /\ (full -> s_xmit s = 0 -> s_acked s = 0 -> s_xmit s' = 1).
+
+Lemma fl_seg_rel_refl (P : Prop) s : ~ P -> fl_seg_rel P s s.
+Proof. intros Hn. repeat split. intros Hp; contradiction. Qed.
+
+Lemma fl_seg_rel_weaken (P : Prop) s s' : fl_seg_rel True s s' -> fl_seg_rel P s s'.
+Proof.
+  intros (R1 & R2 & R3 & R4 & R5 & R6). repeat split; try assumption. intros _. apply R6. exact I.
+Qed.
 
 Lemma fl_u32_1 : u32 (0 + 1) = 1.
 Proof. reflexivity. Qed.
 
 Lemma fl_seg_rel_of k h resent newsegs now s a s' a' :
-  flush_seg k h resent newsegs now s a = Ok (s', a') -> fl_seg_rel s s'.
+  flush_seg k h resent newsegs now s a = Ok (s', a') -> fl_seg_rel True s s'.
 Proof.
   unfold flush_seg. intros H.
   destruct (s_acked s =? 1) eqn:Ea.
-  { inversion H; subst. repeat split. fl_b2z. intros _ Hk. rewrite Hk in Ea. discriminate. }
+  { inversion H; subst. repeat split. fl_b2z. intros _ _ Hk. rewrite Hk in Ea. discriminate. }
   assert (Hgen : forall t : bool * Z * Z * Z * fl,
     (let '(needsend, rto, resendts, fastack, a1) := t in
     let finish (s' : seg) (a' : fl) : res (seg * fl) :=
@@ -391,12 +399,12 @@ Proof.
     else
       finish (mkSeg (s_conv s) (s_cmd s) (s_frg s) (s_wnd s) (s_ts s) (s_sn s) (s_una s)
                     rto (s_xmit s) resendts fastack (s_acked s) (s_data s)) a1) = Ok (s', a') ->
-    (s_xmit s = 0 -> (let '(ns, _, _, _, _) := t in ns) = true) -> fl_seg_rel s s').
+    (s_xmit s = 0 -> (let '(ns, _, _, _, _) := t in ns) = true) -> fl_seg_rel True s s').
   { intros [[[[ns rto] rts] fa] a1] HH Hx. cbv beta iota zeta in HH, Hx. destruct ns.
     - destruct (stage_write k _ _); [|discriminate]. inversion HH; subst.
-      unfold fl_seg_rel. fl_segf. repeat split. intros Hz _. rewrite Hz. apply fl_u32_1.
+      unfold fl_seg_rel. fl_segf. repeat split. intros _ Hz _. rewrite Hz. apply fl_u32_1.
     - inversion HH; subst. unfold fl_seg_rel. fl_segf. repeat split.
-      intros Hz _. specialize (Hx Hz). discriminate. }
+      intros _ Hz _. specialize (Hx Hz). discriminate. }
   apply (Hgen _ H). intros Hz.
   destruct (s_xmit s =? 0) eqn:Ex; [reflexivity|]. fl_b2z. contradiction.
 Qed.
@@ -452,7 +460,7 @@ Proof.
 Qed.
 
 Lemma fl_segs_rel k h resent newsegs now : forall l a l' a',
-  flush_segs k h resent newsegs now l a = Ok (l', a') -> Forall2 fl_seg_rel l l'.
+  flush_segs k h resent newsegs now l a = Ok (l', a') -> Forall2 (fl_seg_rel True) l l'.
 Proof.
   induction l as [|s t IH]; intros a l' a' H; cbn [flush_segs] in H.
   - inversion H; subst. constructor.
@@ -477,19 +485,19 @@ Proof.
 Qed.
 
 (* consequences of Forall2 fl_seg_rel *)
-Lemma fl_rel_length l l' : Forall2 fl_seg_rel l l' -> qlen l' = qlen l.
+Lemma fl_rel_length P l l' : Forall2 (fl_seg_rel P) l l' -> qlen l' = qlen l.
 Proof.
   induction 1 as [|s s' t t' Hr Ht IH]; [reflexivity|]. rewrite !fl_qlen_cons, IH. reflexivity.
 Qed.
 
-Lemma fl_rel_contig l l' : Forall2 fl_seg_rel l l' -> forall b, contiguous b l -> contiguous b l'.
+Lemma fl_rel_contig P l l' : Forall2 (fl_seg_rel P) l l' -> forall b, contiguous b l -> contiguous b l'.
 Proof.
   induction 1 as [|s s' t t' Hr Ht IH]; intros b Hc; [exact I|].
   cbn [contiguous] in *. destruct Hc as (H1 & H2). destruct Hr as (R1 & _).
   split; [rewrite R1; exact H1|apply IH; exact H2].
 Qed.
 
-Lemma fl_rel_len m l l' : Forall2 fl_seg_rel l l' ->
+Lemma fl_rel_len P m l l' : Forall2 (fl_seg_rel P) l l' ->
   Forall (fun s => seg_len s <= m) l -> Forall (fun s => seg_len s <= m) l'.
 Proof.
   induction 1 as [|s s' t t' Hr Ht IH]; intros Hf; [constructor|].
@@ -497,7 +505,7 @@ Proof.
   constructor; [unfold seg_len in *; rewrite R2; exact H1|apply IH; exact H2].
 Qed.
 
-Lemma fl_rel_push cv l l' : Forall2 fl_seg_rel l l' ->
+Lemma fl_rel_push P cv l l' : Forall2 (fl_seg_rel P) l l' ->
   Forall (fun s => s_conv s = cv /\ s_cmd s = c_IKCP_CMD_PUSH) l ->
   Forall (fun s => s_conv s = cv /\ s_cmd s = c_IKCP_CMD_PUSH) l'.
 Proof.
@@ -506,10 +514,10 @@ Proof.
   constructor; [rewrite R3, R4; split; assumption|apply IH; exact H2].
 Qed.
 
-Lemma fl_rel_xmit m l l' : Forall2 fl_seg_rel l l' ->
+Lemma fl_rel_xmit (P : Prop) m l l' : P -> Forall2 (fl_seg_rel P) l l' ->
   Forall (fl_fresh m) l -> Forall (fun s => s_xmit s = 1) l'.
 Proof.
-  induction 1 as [|s s' t t' Hr Ht IH]; intros Hf; [constructor|].
+  intros HP. induction 1 as [|s s' t t' Hr Ht IH]; intros Hf; [constructor|].
   inversion Hf as [|x y (_ & H1 & H1') H2]; subst x y. destruct Hr as (_ & _ & _ & _ & _ & R6).
   constructor; [apply R6; assumption|apply IH; exact H2].
 Qed.
@@ -567,29 +575,28 @@ Proof.
 Qed.
 
 Lemma fl_ph6_shape k5 a cw resent :
-  0 <= cwnd k5 ->
   exists sst cwn inc, fl_ph6 k5 a cw resent = set_cc k5 sst (rmt_wnd k5) cwn inc /\
-                      0 <= cwn /\ (nocwnd k5 = 0 -> 1 <= cwn).
+                      (0 <= cwnd k5 -> 0 <= cwn) /\ (nocwnd k5 = 0 -> 1 <= cwn).
 Proof.
-  intros H0. unfold fl_ph6. destruct (nocwnd k5 =? 0) eqn:En.
+  unfold fl_ph6. destruct (nocwnd k5 =? 0) eqn:En.
   - cbv zeta.
-    assert (S0 : exists s w i, k5 = set_cc k5 s (rmt_wnd k5) w i /\ 0 <= w).
-    { exists (ssthresh k5), (cwnd k5), (incr k5). split; [symmetry; apply fl_set_cc_id|exact H0]. }
+    assert (S0 : exists s w i, k5 = set_cc k5 s (rmt_wnd k5) w i /\ (0 <= cwnd k5 -> 0 <= w)).
+    { exists (ssthresh k5), (cwnd k5), (incr k5). split; [symmetry; apply fl_set_cc_id|intros H0; exact H0]. }
     match goal with |- context [if f_change a >? 0 then set_cc k5 ?s _ ?w ?i else k5] =>
-      destruct (fl_cc_step (fun z => 0 <= z) k5 k5 (f_change a >? 0) s w i S0) as (s1 & w1 & i1 & E1 & P1);
-        [apply u32_range|]
+      destruct (fl_cc_step (fun z => 0 <= cwnd k5 -> 0 <= z) k5 k5 (f_change a >? 0) s w i S0) as (s1 & w1 & i1 & E1 & P1);
+        [intros _; apply u32_range|]
     end.
     rewrite E1.
     match goal with |- context [if f_lost a >? 0 then set_cc ?kk ?s _ ?w ?i else ?kk] =>
-      destruct (fl_cc_step (fun z => 0 <= z) k5 kk (f_lost a >? 0) s w i) as (s2 & w2 & i2 & E2 & P2);
-        [exists s1, w1, i1; split; [reflexivity|exact P1]|lia|]
+      destruct (fl_cc_step (fun z => 0 <= cwnd k5 -> 0 <= z) k5 kk (f_lost a >? 0) s w i) as (s2 & w2 & i2 & E2 & P2);
+        [exists s1, w1, i1; split; [reflexivity|exact P1]|intros _; lia|]
     end.
     rewrite E2. fl_fields.
     destruct (w2 <? 1) eqn:Ew; fl_b2z.
-    + rewrite fl_set_cc_cc. do 3 eexists. split; [reflexivity|]. split; [lia|]. intros _; lia.
-    + do 3 eexists. split; [reflexivity|]. split; [lia|]. intros _; lia.
+    + rewrite fl_set_cc_cc. do 3 eexists. split; [reflexivity|]. split; [intros _; lia|]. intros _; lia.
+    + do 3 eexists. split; [reflexivity|]. split; [intros _; lia|]. intros _; lia.
   - fl_b2z. exists (ssthresh k5), (cwnd k5), (incr k5). split; [symmetry; apply fl_set_cc_id|].
-    split; [exact H0|]. intros Hn; contradiction.
+    split; [intros H0; exact H0|]. intros Hn; contradiction.
 Qed.
 
 (* ---- flush, phase by phase ---- *)
@@ -614,7 +621,10 @@ Lemma fl_unfold k ft now :
       Ok (fl_ph6 (fl_k5 k4 sb' a) a (fl_cw k3) (fl_resent k4), f_next a, flush_buffer (f_st a))
     end end end
   end.
-Proof. reflexivity. Qed.
+Proof.
+  unfold flush, fl_ph1, fl_ph2, fl_ph3, fl_ph4, fl_k4, fl_ph5, fl_k5, fl_ph6, fl_cw, fl_resent, fl_hdr, fl_h0.
+  cbv zeta. reflexivity.
+Qed.
 
 Lemma fl_invert k ft now k' nx o :
   flush k ft now = Ok (k', nx, o) ->
